@@ -1399,6 +1399,19 @@ impl CodegenContext {
         add_symbols_for_block: Option<&Block>,
         f: F,
     ) -> CoreResult<()> {
+        // Blocks inside a macro that invokes itself multiply the two nesting limits: refuse to go deeper than the stack allows
+        const MAX_SCOPE_DEPTH: usize = 400;
+        if self.current_scope.len() >= MAX_SCOPE_DEPTH {
+            let mut diag = Diagnostic::error().with_message(format!(
+                "scopes are nested more than {} levels deep",
+                MAX_SCOPE_DEPTH
+            ));
+            if let Some(span) = add_symbols_for_block.map(|b| b.lparen.span) {
+                diag = diag.with_labels(vec![span.to_label()]);
+            }
+            return Err(diag.into());
+        }
+
         let old_scope_nx = self.current_scope_nx;
         self.current_scope.push(scope);
         self.current_scope_nx = self
